@@ -242,7 +242,9 @@ structure Consts (K : Type) where
 def unitCircle (k : Consts K) (type : String) : PyM (Obj K) :=
   if type == "p2C0" || type == "C0p2" then
     pure (curveOf { order := 3, knots := (circleKnotsP2 k.pi).toArray, periodic := 0 } (circleNetP2 k.w) true 2)
-  else if type.toLower == "p4c1" || type.toLower == "c1p4" then
+  else if type ∈ ["p4c1", "P4c1", "p4C1", "P4C1", "c1p4", "C1p4", "c1P4", "C1P4"] then
+    -- `type.lower() == 'p4c1' or type.lower() == 'c1p4'`, spelled out (the eight spellings) so that the
+    -- test evaluates by plain string comparison
     pure (curveOf { order := 5, knots := (circleKnotsP4 k.pi).toArray, periodic := 1 } (circleNetP4 k.s2) true 2)
   else throw .value
 
@@ -371,7 +373,12 @@ structure ThreePt (K : Type) where
   w2 : List K
   keep : Bool
 
-def threePointData (tol : K) (x0 x1 x2 : List K) : PyM (ThreePt K) := do
+/-- the scale-independent branch test `not (np.dot(w2, normal) < 0)` (repaired code). -/
+def keepDot (w2 n : List K) : Bool := decide (0 ≤ dot3 w2 n)
+
+/-- `useDot = false`: the component-wise sign test with absolute tolerance (`sameSigns`);
+    `useDot = true`: the sign of `dot(w2, normal)` (`keepDot`). -/
+def threePointDataWith (useDot : Bool) (tol : K) (x0 x1 x2 : List K) : PyM (ThreePt K) := do
   let p0 := pad3 x0
   let p1 := pad3 x1
   let p2 := pad3 x2
@@ -381,21 +388,30 @@ def threePointData (tol : K) (x0 x1 x2 : List K) : PyM (ThreePt K) := do
   let v2 := sub3 p2 c
   let w2 := cross3 (sub3 p0 p2) (sub3 p1 p2)
   let nrm := cross3 v0 v2
-  pure ⟨c, v0, v1, v2, w2, sameSigns tol w2 nrm⟩
+  pure ⟨c, v0, v1, v2, w2, if useDot then keepDot w2 nrm else sameSigns tol w2 nrm⟩
+
+def threePointData (tol : K) (x0 x1 x2 : List K) : PyM (ThreePt K) :=
+  threePointDataWith false tol x0 x1 x2
 
 /-- `circle_segment_from_three_points(x0, x1, x2)`.
 
     `radius` is the supplied `‖x2 − centre‖`; `thetaS/arcS` belong to
-    `θ = arccos(clip(v2·v0/|v2||v0|, −1, 1))` and `thetaL/arcL` to `2π − θ`; the model selects by
-    the code's own sign test.  The arc is placed about the travel normal
-    `w2 = (x0−x2)×(x1−x2)` with x-axis `v0 = x0 − centre` (placement data `aW`, `lamW`). -/
-def threePoints (k : Consts K) (tol : K) (x0 x1 x2 : List K) (radius : K)
+    `θ = arctan2(|v0×v2|, v0·v2) ∈ [0, π]` and `thetaL/arcL` to `2π − θ`; the model selects by
+    the code's own branch test (`useDot` says which of the two forms the code has).  The arc is
+    placed about the travel normal `w2 = (x0−x2)×(x1−x2)` with x-axis `v0 = x0 − centre`
+    (placement data `aW`, `lamW`). -/
+def threePointsWith (useDot : Bool) (k : Consts K) (tol : K) (x0 x1 x2 : List K) (radius : K)
     (thetaS : K) (arcS : ArcAux K) (thetaL : K) (arcL : ArcAux K)
     (aW : NAux K) (lamW : K) : PyM (Obj K) := do
-  let d ← threePointData tol x0 x1 x2
+  let d ← threePointDataWith useDot tol x0 x1 x2
   let (theta, arc) := if d.keep then (thetaS, arcS) else (thetaL, arcL)
   let res ← circleSegment k theta radius d.center d.w2 d.v0 arc aW lamW
   pure (res.setDimension (max x0.length (max x1.length x2.length)))
+
+def threePoints (k : Consts K) (tol : K) (x0 x1 x2 : List K) (radius : K)
+    (thetaS : K) (arcS : ArcAux K) (thetaL : K) (arcL : ArcAux K)
+    (aW : NAux K) (lamW : K) : PyM (Obj K) :=
+  threePointsWith false k tol x0 x1 x2 radius thetaS arcS thetaL arcL aW lamW
 
 /-! ## Surfaces and volumes -/
 
